@@ -220,10 +220,33 @@ dump_json_kwargs = {
 }
 
 
+yaml_default_dumper = None
+
+
+def get_yaml_default_dumper():
+    global yaml_default_dumper
+    if yaml_default_dumper:
+        return yaml_default_dumper
+
+    import yaml
+
+    class DefaultDumper(yaml.SafeDumper):
+        pass
+
+    # strings that the default loader would resolve as float must be quoted
+    for first_letter, mappings in get_yaml_default_loader().yaml_implicit_resolvers.items():
+        for tag, regexp in mappings:
+            if tag == "tag:yaml.org,2002:float":
+                DefaultDumper.add_implicit_resolver(tag, regexp, [first_letter])
+
+    yaml_default_dumper = DefaultDumper
+    return yaml_default_dumper
+
+
 def yaml_dump(data):
     import yaml
 
-    return yaml.safe_dump(data, **dump_yaml_kwargs)
+    return yaml.dump(data, Dumper=get_yaml_default_dumper(), **dump_yaml_kwargs)
 
 
 def yaml_comments_dump(data, parser):
